@@ -510,6 +510,33 @@ fn builtin_structs(_env: &Env, st: &mut Stats) -> Vec<Failure> {
         };
     }
     let mut fails = vec![];
+    // a runtime without registrations knows no function: every built-in name is unknown there
+    // (also nested in another call's reference, in a projection, after a pipe)
+    {
+        let empty = Runtime::new();
+        let mut other = Runtime::new();
+        other.register_builtin_functions();
+        for sig in SIGS {
+            for form in ["{F}(@)", "xs[*].{F}(@)", "z | {F}(@)", "[{F}(xs)]", "xs[?{F}(@)]"] {
+                let call = form.replace("{F}", sig.name);
+                st.eval();
+                let got = catch(std::panic::AssertUnwindSafe(|| empty.compile(&call).map(|c| c.search(Variable::from_json("{\"xs\":[1,2],\"z\":null}").unwrap()))));
+                let ok = matches!(&got, Ok(Ok(Err(e))) if crate::imp::classify(e).class == "UnknownFunction");
+                if !ok {
+                    fails.push(Failure::new(
+                        "builtin-structs",
+                        "unregistered-name-resolves",
+                        format!("{} on Runtime::new() gives {:?}, expected unknown-function", call, got.map(|r| r.map(|x| x.map(|v| v.to_string()).map_err(|e| e.to_string())).map_err(|e| e.to_string()))),
+                        json!({"expression": call, "runtime": "Runtime::new() (another runtime with the built-ins exists beside it)"}),
+                    ));
+                    if fails.len() > 5 {
+                        return fails;
+                    }
+                }
+            }
+        }
+        let _ = other;
+    }
     for mode in 0..2 {
         let mut rt = Runtime::new();
         reg!(rt, mode,
